@@ -38,10 +38,13 @@ def load_specs(path):
     return [data]
 
 
+OUT = os.environ.get("VERIF_OUT") or HERE  # the sensitivity audit redirects evidence/replay output
+
+
 def write_replay(prop_id, v):
-    os.makedirs(os.path.join(HERE, "replay"), exist_ok=True)
+    os.makedirs(os.path.join(OUT, "replay"), exist_ok=True)
     name = "%s-%s.json" % (prop_id, re.sub(r"[^A-Za-z0-9]+", "_", v["bucket"]).strip("_"))
-    path = os.path.join(HERE, "replay", name)
+    path = os.path.join(OUT, "replay", name)
     with open(path, "w") as fh:
         json.dump(
             {"property": prop_id, "bucket": v["bucket"], "msg": v["msg"], "spec": v["spec"],
@@ -98,7 +101,7 @@ def main(argv):
     nshards = int(os.environ.get("VERIF_WORKERS", "16"))
     t0 = time.time()
     # replay files are rewritten by every run
-    rdir = os.path.join(HERE, "replay")
+    rdir = os.path.join(OUT, "replay")
     if os.path.isdir(rdir):
         for fn in os.listdir(rdir):
             if fn.startswith(prop_id + "-"):
@@ -173,8 +176,8 @@ def main(argv):
         if r["error"]:
             harness_errors.append(r["error"]["harness_error"])
             if r["error"].get("spec") is not None:
-                os.makedirs(os.path.join(HERE, "replay"), exist_ok=True)
-                with open(os.path.join(HERE, "replay", "%s-harness-error.json" % prop_id), "w") as fh:
+                os.makedirs(os.path.join(OUT, "replay"), exist_ok=True)
+                with open(os.path.join(OUT, "replay", "%s-harness-error.json" % prop_id), "w") as fh:
                     json.dump({"spec": r["error"]["spec"]}, fh, indent=1, default=str)
 
     # one report per root-cause bucket: keep the smallest spec
@@ -222,8 +225,8 @@ def main(argv):
     }
     if harness_errors:
         ev["coverage"]["harness_errors"] = harness_errors[:3]
-    os.makedirs(os.path.join(HERE, "evidence"), exist_ok=True)
-    with open(os.path.join(HERE, "evidence", "%s.json" % prop_id), "w") as fh:
+    os.makedirs(os.path.join(OUT, "evidence"), exist_ok=True)
+    with open(os.path.join(OUT, "evidence", "%s.json" % prop_id), "w") as fh:
         json.dump(enc(ev), fh, indent=1, default=str)
 
     print(
